@@ -223,6 +223,26 @@ def check_case(case, ctx):
         st_, v_ = call(WO.by_path, "m/0'")
         if st_ == "ok":
             raise Violation("C14/private/hardened-derived", "%s: by_path(\"m/0'\") returned %r" % (tag, v_))
+        # every spelling of a hardened component a path parser might take: a node must never come back from a watch-only wallet
+        for spelled in ("M/0'", "M/0h", "M/0H", "m/1/7H", "M/3H/4", "M/2147483647h", "M/0/0'", "M/5'/0"):
+            st_, v_ = call(WO.by_path, spelled)
+            if st_ == "ok" and v_ is not None:
+                raise Violation("C14/private/hardened-derived[path-spelling]", "%s: by_path(%r) returned the node %r instead of refusing a "
+                                "hardened component" % (tag, spelled, v_))
+        # the address generator reaches the last non-hardened child (index 2^31 - 1) like any other
+        rlast = None
+        try:
+            rlast = R.ckd_pub(rexp.neuter(), H - 1)
+        except R.Invalid:
+            pass
+        if rlast is not None and purpose == 49:
+            g = WO.address_generator(WO.master, WO.p2wpkh_address)
+            st_, got = call(lambda: (next(g), g.send(H - 1))[1])
+            g.close()
+            want_addr = addr_expected(rlast.pt, testnet)["p2wpkh"]
+            if st_ == "exc":
+                raise Violation("C14/address/generator-last-index", "%s: address generator advanced to index 2^31-1 raised %r" % (tag, got))
+            addr_judge("C14/address/generator-last-index", "%s: address generator advanced to index 2^31-1 (%r)" % (tag, got), got[1], want_addr)
         if case["paper"]:
             st_, v_ = call(WO.generate)
             if st_ == "ok":
